@@ -81,11 +81,30 @@ AtomsB == <<
   <<Asrt(Bin("==", [k |-> "ram16", e |-> N(65535)], N(0)))>>                            \* 17  (cannot be evaluated: fails)
 >>
 
-NAtoms == IF Alphabet = "A" THEN Len(AtomsA) ELSE NB
-AtomSeq(a) == IF Alphabet = "A" THEN <<AtomsA[a]>> ELSE AtomsB[a]
-LabelAtom == IF Alphabet = "A" THEN 7 ELSE 8
-LabelUsers == IF Alphabet = "A" THEN {8, 9} ELSE {9, 10}
-FirstAssertAtom == 11
+(* alphabet C: assembly-time variables that are assigned again between assertions and instructions.  Every assertion and *)
+(* every operand has to see the value assigned last in front of its own place.                                           *)
+Var(nm, e) == [k |-> "var", name |-> nm, e |-> e]
+VV == Id(<<"v">>, "v")
+AtomsC == <<
+  <<Var("v", N(1))>>,                                                                   \*  1
+  <<Var("v", N(2))>>,                                                                   \*  2
+  <<Var("v", Bin("+", VV, N(1)))>>,                                                     \*  3
+  <<Var("w", VV)>>,                                                                     \*  4
+  <<Insn("lda", "imm", VV)>>,                                                           \*  5
+  <<Imp("nop")>>,                                                                       \*  6
+  <<Insn("ldx", "imm", Id(<<"w">>, "w"))>>,                                             \*  7
+  <<Asrt(Bin("==", VV, N(1)))>>,                                                        \*  8
+  <<Asrt(Bin("==", VV, N(2)))>>,                                                        \*  9
+  <<Asrt(Bin("==", CpuA, VV))>>,                                                        \* 10
+  <<Asrt(Bin("==", Id(<<"w">>, "w"), N(1)))>>,                                          \* 11
+  <<Asrt(Bin("==", VV, N(3)))>>                                                         \* 12
+>>
+
+NAtoms == IF Alphabet = "A" THEN Len(AtomsA) ELSE IF Alphabet = "C" THEN Len(AtomsC) ELSE NB
+AtomSeq(a) == IF Alphabet = "A" THEN <<AtomsA[a]>> ELSE IF Alphabet = "C" THEN AtomsC[a] ELSE AtomsB[a]
+LabelAtom == IF Alphabet = "A" THEN 7 ELSE IF Alphabet = "C" THEN 0 ELSE 8
+LabelUsers == IF Alphabet = "A" THEN {8, 9} ELSE IF Alphabet = "C" THEN {} ELSE {9, 10}
+FirstAssertAtom == IF Alphabet = "C" THEN 8 ELSE 11
 Count(sh, a) == Cardinality({i \in DOMAIN sh : sh[i] = a})
 WellFormed(sh) == /\ Count(sh, LabelAtom) <= 1
                   /\ ((\E i \in DOMAIN sh : sh[i] \in LabelUsers) => Count(sh, LabelAtom) = 1)
@@ -93,7 +112,9 @@ WellFormed(sh) == /\ Count(sh, LabelAtom) <= 1
 Tag(ss, i) == [j \in 1..Len(ss) |-> IF ss[j].k = "assert" THEN [ss[j] EXCEPT !.aid = i] ELSE ss[j]]
 RECURSIVE Flat(_, _)
 Flat(sh, i) == IF i > Len(sh) THEN <<>> ELSE Tag(AtomSeq(sh[i]), i) \o Flat(sh, i + 1)
-Body(sh) == Flat(sh, 1)
+(* alphabet C: both variables hold 1 when the body begins, so that an assertion in front of the first assignment of the body is evaluable *)
+Prelude == IF Alphabet = "C" THEN <<Var("v", N(1)), Var("w", N(1))>> ELSE <<>>
+Body(sh) == Prelude \o Flat(sh, 1)
 Project(sh) == [segdefs |-> <<>>, files |-> <<>>,
                 items |-> <<[k |-> "test", name |-> "t", body |-> Body(sh) \o <<Imp("brk")>>]>> \o Sub]
 
@@ -144,6 +165,9 @@ NoBreakBitsSeen == ~(s.status = "passed" /\ Has(11))
 NoPlpFlags == ~(s.status = "passed" /\ Has(5) /\ Has(12))
 NoTopByteRead == ~(s.status = "passed" /\ Has(7) /\ Has(15) /\ Has(16))
 NoWordPastTop == ~(s.status = "failed" /\ s.aid \in DOMAIN shape /\ shape[s.aid] = 17)
+(* alphabet C: a passing run with two assertions on v that need different values; a failing run whose first assertion on v held *)
+NoTwoValuesPass == ~(s.status = "passed" /\ Has(8) /\ Has(9))
+NoLateVarFail == ~(s.status = "failed" /\ s.aid \in DOMAIN shape /\ s.aid > 2 /\ \E i \in 1..(s.aid - 1) : shape[i] \in {8, 9, 12})
 
 (* ---- cases for the implementation: one line per finished run *)
 Case == [prj |-> Project(shape), shape |-> shape, ideal |-> Ideal(T).v, aid |-> Ideal(T).aid, visit |-> Ideal(T).visit, steps |-> s.n]
